@@ -71,6 +71,10 @@ func suiteGet(tier string, seed uint64, model string) *Report {
 		}
 		cases = append(cases, cs{genPath(r, 2), d})
 	}
+	dps, dds := directedJpCases()
+	for i := range dps {
+		cases = append(cases, cs{dps[i], dds[i]})
+	}
 	for _, c := range cases {
 		reqs = append(reqs, "get\t"+PathSexp(c.path)+"\t"+Show(c.data))
 	}
@@ -162,6 +166,18 @@ func suiteScript(tier string, seed uint64, model string) *Report {
 					}
 					cases = append(cases, cs{e, map[string]any{"l": a, "r": b}})
 				}
+			}
+		}
+	}
+	// integers beyond 2^53 that differ by less than the float64 spacing: int x int comparisons are
+	// by value, not through float64 (operands from the data and as constants)
+	bigs := []int64{9007199254740992, 9007199254740993, 9007199254740994, 1700000000000000001, 1700000000000000002, 1700000000000000003,
+		-9007199254740993, -9007199254740992, 9223372036854775806, 9223372036854775807, -9223372036854775807}
+	for _, op := range []string{"eq", "neq", "lt", "gt", "lte", "gte"} {
+		for _, a := range bigs {
+			for _, b := range bigs {
+				cases = append(cases, cs{&Eqn{Kind: "bin", Op: op, A: pl("l"), B: pl("r")}, map[string]any{"l": a, "r": b}})
+				cases = append(cases, cs{&Eqn{Kind: "bin", Op: op, A: pl("l"), B: &Eqn{Kind: "v", Const: b}}, map[string]any{"l": a}})
 			}
 		}
 	}
